@@ -222,8 +222,14 @@ func runCheck(id, tier, repo string, seed int, writeBaseline bool) int {
 			continue
 		}
 		ft := funcTags(sp)
+		// C12 (no panic) is served by the panic-freedom obligations of EVERY function under contract, whatever property
+		// its clauses are tagged with: safety.* and the preconditions of callees (a violated dependency precondition is a crash)
+		safetyOnly := false
 		if !hasTag(ft, id) {
-			continue
+			if id != "C12" || sp.NoSafety {
+				continue
+			}
+			safetyOnly = true
 		}
 		vc, err := w.TranslateFunction(fn, VerifyOpts{SafetyTags: ft})
 		if err != nil {
@@ -247,7 +253,7 @@ func runCheck(id, tier, repo string, seed int, writeBaseline bool) int {
 			if ob.Kind == "cover" {
 				ob.Tags = ft
 			}
-			if hasTag(ob.Tags, id) {
+			if hasTag(ob.Tags, id) || (safetyOnly && (strings.Contains(ob.Name, "#safety.") || strings.Contains(ob.Name, "#call.requires@"))) {
 				all = append(all, ob)
 				n++
 			}
@@ -305,7 +311,9 @@ func runCheck(id, tier, repo string, seed int, writeBaseline bool) int {
 		solver.AllAgree = true
 		solver.NoCache = true
 	} else {
-		solver.TimeoutS = 60
+		// every obligation of the baselines discharges in stage 1 (a few seconds); 30 s (and 60 s for the final retry) keeps a
+		// run on a changed tree - where some obligations stay open through all stages - within a few minutes
+		solver.TimeoutS = 30
 		solver.QuickS = 6
 	}
 	if os.Getenv("GOCV_TIMING") != "" {
